@@ -86,3 +86,66 @@ def runner_arguments(repo) -> List[Tuple[Dict[str, Any], Dict[str, Any]]]:
         out.append((sc, {"names": list(names), "values": [render(v) for v in values], "fixed_names": list(fnames),
                          "fixed_values": [render(v) for v in fvalues], "running": running if isinstance(running, dict) else None}))
     return out
+
+
+def solve_outcomes(repo):
+    """solve() followed to its end for `runner.run()` returning True / False: [(ran, events, result)] with the events WITH-ENTER,
+    RUN, SOLUTION (the constructor call), SAVE (solution.to_hdf5()), WITH-EXIT in the order they happen."""
+    fs = repo.func(SOLVER, "TDGLSolver.solve")
+    C = repo.cls(SOLVER, "TDGLSolver")
+    from .smallstep import Closure, _Return, module_constants
+    out = []
+    for ran in (True, False):
+        events: List[str] = []
+
+        class _M(Machine):
+            def with_(self, items, body):
+                if items and "DataHandler" in render(self.ev(items[0].context_expr)):
+                    events.append("WITH-ENTER")
+                    try:
+                        return super().with_(items, body)
+                    finally:
+                        events.append("WITH-EXIT")
+                return super().with_(items, body)
+
+        def attrs(text):
+            last = text.split(".")[-1]
+            if text == "self.seed_solution" or text == "self.probe_points":
+                return None
+            if text in ("self.dynamic_vector_potential", "self.dynamic_epsilon", "self.use_cupy") or last == "include_screening":
+                return False
+            return NotImplemented
+
+        def call(m, node, name, args, kwargs, events=events, ran=ran):
+            short = name.split(".")[-1]
+            if name == "Runner":
+                return Opaque("RUNNER")
+            if name == "RUNNER.run":
+                events.append("RUN")
+                return ran
+            if name == "Solution":
+                events.append("SOLUTION")
+                return Opaque("SOLUTION", ("call", "Solution", list(args), dict(kwargs), None))
+            if name == "SOLUTION.to_hdf5":
+                events.append("SAVE")
+                return None
+            if name == "isinstance":
+                return False
+            if name.startswith("self._") and name.count(".") == 1 and short in C.methods:
+                h = C.methods[short].node
+                decos = {getattr(d, "id", "") for d in h.decorator_list}
+                if "staticmethod" in decos:
+                    return m.invoke(Closure(h, None), list(args), kwargs)
+                return m.invoke(Closure(h, None), [Opaque("self")] + list(args), kwargs)
+            return NotImplemented
+
+        def undecided(text):
+            if "tmp_file" in text or ".device" in text:
+                return "tmp_file" in text
+            return None
+        env0 = dict(module_constants(fs.module.tree))
+        env0["self"] = Opaque("self")
+        m = _M(env0, attrs, call, fuel=64, undecided=undecided)
+        kind, val = m.run_function(fs.node)
+        out.append((ran, events, (kind, val)))
+    return out
